@@ -81,6 +81,11 @@ def check_flows(ctx, rid, f, rows, label=None):
         dd = data_flow_only(d)
         missing = [(p, ip) for p, ip in req if not has_flow(dd, p, ip)]
         bad = [(p, ip) for p, ip in forb if has_flow(dd, p, ip, strict=True)]
+        # identity fields: a name must come from the name the table says, not from the name of something nested inside
+        if out and out[-1] in ("name", "inst_name") and req:
+            for s in dd:
+                if s[0] == "param" and s[2] and [x for x in s[2] if not x.startswith("[") and not x.startswith("as:")][-1:] == ["name"] and not any(s[1] == p and _match(s[2], ip, False) for p, ip in req):
+                    bad.append((s[1], tuple(x for x in s[2] if not x.startswith("#"))))
         got = sorted("arg%d.%s" % (s[1], path_str(s[2])) for s in dd if s[0] == "param")
         if missing:
             ctx.violation(rid, inst, "%s: output %s does not derive from %s (it derives from %s)" % (
